@@ -1,3 +1,290 @@
 // harnesses mounted as child module of agdb/src/collections/indexed_map.rs
 #[allow(unused_imports)]
 use super::*;
+
+// =============================================================================
+// C10 — "aliases form a one-to-one mapping" at the mapping kernel:
+// `IndexedMapImpl` (alias -> id and id -> alias kept as two `MapImpl`s)
+// instantiated `<u64, u64, ArrStorage, ArrMap<64>, ArrMap<64>>` — key = alias,
+// value = node id; `StableHash for u64` is the identity, so the small domains
+// below produce collisions in both directions.
+//
+// Oracle (from the property): a reference bijection in plain arrays.
+//   insert(k, v): "replaces that node's previous alias and takes the alias from
+//                 any node that held it" — drop the pair holding key k, drop the
+//                 pair holding value v, add (k, v)
+//   remove_key(k) / remove_value(v): "makes it unresolvable"
+//   after EVERY step: value(k) / key(v) agree with the reference for every k, v
+//   of the domains (=> the two directions are mutual inverses, each key has at
+//   most one value and each value at most one key), both tables hold exactly
+//   the reference's number of pairs, no key is stored twice in either table.
+//
+// What `DbImpl::insert_alias` does around `IndexedMapImpl::insert` (read, not
+// encoded — needs the whole DbImpl): it first removes the node's old alias
+// (`remove_key(old_alias)` twice), then calls `insert(alias, id)`;
+// `IndexedMapImpl::insert` itself already handles both replacements, so the
+// kernel semantics checked here is the one the property states. Empty aliases,
+// aliases for edge ids, removal together with the node: DbImpl / query layer,
+// outside this check.
+// =============================================================================
+
+use crate::collections::map::verif_h::C10_DOMAIN;
+use crate::collections::map::verif_h::c10_any_from_domain;
+use crate::collections::map::verif_h::c10_data;
+use crate::collections::map::verif_h::c10_empty_map;
+use crate::collections::map::verif_h::c10_slots_with_key;
+use crate::collections::map::verif_h::c10_valid_slots;
+use crate::storage::verif_h::fresh_arr_storage;
+use crate::verif_support::ArrMap;
+use crate::verif_support::ArrStorage;
+use crate::verif_support::is_ok;
+use crate::verif_support::ok;
+
+type C10Indexed = IndexedMapImpl<u64, u64, ArrStorage, ArrMap<64>, ArrMap<64>>;
+
+/// The empty indexed map exactly as `DbIndexedMap::new` builds it.
+fn c10_empty_indexed() -> C10Indexed {
+    IndexedMapImpl {
+        keys_to_values: c10_empty_map::<64>(),
+        values_to_keys: c10_empty_map::<64>(),
+        storage: PhantomData,
+    }
+}
+
+// reference bijection: at most one pair per key and per value
+struct C10Bijection {
+    used: [bool; 4],
+    keys: [u64; 4],
+    values: [u64; 4],
+}
+
+impl C10Bijection {
+    fn new() -> Self {
+        Self {
+            used: [false; 4],
+            keys: [0; 4],
+            values: [0; 4],
+        }
+    }
+    fn value_of(&self, key: u64) -> Option<u64> {
+        let mut r = None;
+        let mut i = 0;
+        while i < 4 {
+            if self.used[i] && self.keys[i] == key {
+                r = Some(self.values[i]);
+            }
+            i += 1;
+        }
+        r
+    }
+    fn key_of(&self, value: u64) -> Option<u64> {
+        let mut r = None;
+        let mut i = 0;
+        while i < 4 {
+            if self.used[i] && self.values[i] == value {
+                r = Some(self.keys[i]);
+            }
+            i += 1;
+        }
+        r
+    }
+    fn pairs(&self) -> u64 {
+        let mut n = 0;
+        let mut i = 0;
+        while i < 4 {
+            if self.used[i] {
+                n += 1;
+            }
+            i += 1;
+        }
+        n
+    }
+    fn remove_key(&mut self, key: u64) {
+        let mut i = 0;
+        while i < 4 {
+            if self.used[i] && self.keys[i] == key {
+                self.used[i] = false;
+            }
+            i += 1;
+        }
+    }
+    fn remove_value(&mut self, value: u64) {
+        let mut i = 0;
+        while i < 4 {
+            if self.used[i] && self.values[i] == value {
+                self.used[i] = false;
+            }
+            i += 1;
+        }
+    }
+    fn insert(&mut self, at: usize, key: u64, value: u64) {
+        self.remove_key(key);
+        self.remove_value(value);
+        self.used[at] = true;
+        self.keys[at] = key;
+        self.values[at] = value;
+    }
+}
+
+// shape[i]: 0 = step i is an insert, 1 = a removal (by key or by value, symbolic),
+// 2 = any of the three (keys and values always symbolic). Step 0 must be an insert.
+// returns (replaced_value_of_key, stole_value, both, removed_by_value, pairs, n)
+fn c10_indexed_history<const STEPS: usize>(shape: [u8; STEPS]) -> (bool, bool, bool, bool, u64, usize) {
+    let mut s = fresh_arr_storage();
+    let mut m = c10_empty_indexed();
+    let mut reference = C10Bijection::new();
+    let mut replaced_value_of_key = false; // existing alias moved to another node
+    let mut stole_value = false; // node got a new alias, old alias dropped
+    let mut both = false;
+    let mut removed_by_value = false;
+    // remove / lookup on the never-used map (capacity 0)
+    let k0 = c10_any_from_domain();
+    assert!(is_ok(m.remove_key(&mut s, &k0)), "remove_key on the empty map returned Err");
+    assert!(is_ok(m.remove_value(&mut s, &k0)), "remove_value on the empty map returned Err");
+    assert!(ok(m.key(&s, &k0)).is_none() && ok(m.value(&s, &k0)).is_none(), "empty map resolves something");
+    // History length symbolic (1..=STEPS): the checks below run once, on the
+    // state after ANY prefix of the history, i.e. after every step (running the
+    // lookups inside the loop after each step: out of memory at 10 GB).
+    let n: usize = kani::any();
+    kani::assume(n >= 1 && n <= STEPS);
+    let mut step = 0;
+    while step < STEPS {
+        if step == 0 || step < n {
+        // step 0 is always an insert: it grows both tables 0 -> 64, after which
+        // the capacities are constants for CBMC (see map_h.rs)
+        let op: u8 = match shape[step] {
+            0 => 0,
+            1 => {
+                if kani::any() {
+                    1
+                } else {
+                    2
+                }
+            }
+            _ => kani::any(),
+        };
+        kani::assume(op < 3);
+        let k = c10_any_from_domain();
+        let v = c10_any_from_domain();
+        match op {
+            0 => {
+                let old_v = reference.value_of(k);
+                let old_k = reference.key_of(v);
+                let same_pair = old_v == Some(v);
+                if old_v.is_some() && !same_pair {
+                    replaced_value_of_key = true;
+                }
+                if old_k.is_some() && !same_pair {
+                    stole_value = true;
+                }
+                if old_v.is_some() && old_k.is_some() && !same_pair {
+                    both = true;
+                }
+                reference.insert(step, k, v);
+                assert!(is_ok(m.insert(&mut s, &k, &v)), "insert returned Err");
+            }
+            1 => {
+                reference.remove_key(k);
+                assert!(is_ok(m.remove_key(&mut s, &k)), "remove_key returned Err");
+            }
+            _ => {
+                if reference.key_of(v).is_some() {
+                    removed_by_value = true;
+                }
+                reference.remove_value(v);
+                assert!(is_ok(m.remove_value(&mut s, &v)), "remove_value returned Err");
+            }
+        }
+
+        }
+        step += 1;
+    }
+
+    // lookups in both directions agree with the reference bijection, for
+    // every key / value of the domains (symbolic query)
+    let qk = c10_any_from_domain();
+    let qv = c10_any_from_domain();
+    let got_v = ok(m.value(&s, &qk));
+    let got_k = ok(m.key(&s, &qv));
+    assert!(got_v == reference.value_of(qk), "alias -> id lookup differs from the reference bijection");
+    assert!(got_k == reference.key_of(qv), "id -> alias lookup differs from the reference bijection");
+    // structure of both tables
+    let kv = c10_data(&m.keys_to_values);
+    let vk = c10_data(&m.values_to_keys);
+    assert!(c10_slots_with_key(kv, qk) <= 1, "an alias is stored twice");
+    assert!(c10_slots_with_key(vk, qv) <= 1, "an id has two aliases");
+    assert!(kv.len == reference.pairs() && vk.len == reference.pairs(), "the two directions do not hold the same number of pairs as the reference");
+    assert!(c10_valid_slots(kv) == kv.len && c10_valid_slots(vk) == vk.len, "len is not the number of Valid slots");
+
+    // the two directions are mutual inverses (dependent lookup, final state)
+    let qk = c10_any_from_domain();
+    if let Some(v) = ok(m.value(&s, &qk)) {
+        let back = ok(m.key(&s, &v));
+        assert!(back == Some(qk), "value(k) = v but key(v) != k");
+    }
+    let pairs = reference.pairs();
+    std::mem::forget(m);
+    std::mem::forget(s);
+    (replaced_value_of_key, stole_value, both, removed_by_value, pairs, n)
+}
+
+//@ id=C10 tier=quick timeout=1500 bounds="empty indexed map (both tables capacity 0 -> 64; removals and lookups on the never-used map first); 1..=2 (symbolic) inserts of (k, v) with k, v from {0,64,1,65,128} (colliding home slots in both tables, 0 = default key); symbolic query key and value on the final state of every prefix" desc="IndexedMapImpl::insert keeps a one-to-one mapping over two inserts: re-aliasing an id drops its old alias, giving an existing alias to another id takes it from the old one; lookups in both directions equal a reference bijection, nothing is stored twice, both tables have the reference's size, the directions are mutual inverses" kernel="IndexedMapImpl::insert,IndexedMapImpl::remove_key,IndexedMapImpl::remove_value,IndexedMapImpl::key,IndexedMapImpl::value,MapImpl::insert,MapImpl::remove,MapImpl::value" args="--no-assertion-reach-checks"
+#[kani::proof]
+#[kani::stub(std::fmt::format, crate::verif_support::fmt_stub)]
+#[kani::stub(crate::DbError::new, crate::verif_support::dberror_new_stub)]
+#[kani::unwind(6)]
+fn c10_indexed_map_two_inserts_keep_bijection() {
+    let (replaced, stole, _, _, pairs, n) = c10_indexed_history::<2>([0, 0]);
+    kani::cover!(replaced, "an existing alias was moved to another id");
+    kani::cover!(stole, "an id got a new alias, its old alias must stop resolving");
+    kani::cover!(pairs == 2, "two disjoint pairs");
+    kani::cover!(n == 1, "history of a single step");
+    kani::cover!(true, "end of harness reachable");
+}
+
+//@ id=C10 tier=thorough timeout=3600 bounds="empty indexed map (both tables capacity 0 -> 64); 1..=3 (symbolic) inserts of (k, v) with k, v from {0,64,1,65,128} (colliding home slots in both tables, 0 = default key); symbolic query key and value on the final state of every prefix" desc="IndexedMapImpl::insert keeps a one-to-one mapping: an existing alias moves to the new id (the old id loses it), an id's previous alias stops resolving, both at once; lookups in both directions equal a reference bijection, nothing is stored twice, both tables have the reference's size, the directions are mutual inverses" kernel="IndexedMapImpl::insert,IndexedMapImpl::key,IndexedMapImpl::value,MapImpl::insert,MapImpl::remove,MapImpl::value" args="--no-assertion-reach-checks"
+#[kani::proof]
+#[kani::stub(std::fmt::format, crate::verif_support::fmt_stub)]
+#[kani::stub(crate::DbError::new, crate::verif_support::dberror_new_stub)]
+#[kani::unwind(6)]
+fn c10_indexed_map_inserts_keep_bijection() {
+    let (replaced, stole, both, _, pairs, n) = c10_indexed_history::<3>([0, 0, 0]);
+    kani::cover!(replaced, "an existing alias was moved to another id");
+    kani::cover!(stole, "an id got a new alias, its old alias must stop resolving");
+    kani::cover!(both, "insert replaced in both directions at once");
+    kani::cover!(pairs == 3, "three disjoint pairs");
+    kani::cover!(n == 1, "history of a single step");
+    kani::cover!(true, "end of harness reachable");
+}
+
+// The fully symbolic 3-step history (insert, any, any) proves its assertions in
+// 200 s but the solver then runs out of memory (10 GB) on the cover checks, so
+// the remaining step sequences are split by shape (I = insert, R = removal by
+// alias or by id): III above, IIR and IRI below. Not run: IRR (second removal
+// on a map holding at most one tombstone) and histories starting with a removal
+// (they act on the empty map, checked at the start of every history).
+
+//@ id=C10 tier=thorough timeout=3600 bounds="empty indexed map (both tables capacity 0 -> 64); insert, insert, then remove_key/remove_value (symbolic); history length symbolic 1..=3; k, v from {0,64,1,65,128}; symbolic query key and value on the final state of every prefix" desc="IndexedMapImpl keeps a one-to-one mapping when pairs are removed by alias or by id: the removed pair stops resolving in BOTH directions, other pairs are untouched; lookups equal a reference bijection, nothing stored twice, both tables have the reference's size, directions are mutual inverses" kernel="IndexedMapImpl::insert,IndexedMapImpl::remove_key,IndexedMapImpl::remove_value,IndexedMapImpl::key,IndexedMapImpl::value,MapImpl::insert,MapImpl::remove,MapImpl::value" args="--no-assertion-reach-checks"
+#[kani::proof]
+#[kani::stub(std::fmt::format, crate::verif_support::fmt_stub)]
+#[kani::stub(crate::DbError::new, crate::verif_support::dberror_new_stub)]
+#[kani::unwind(6)]
+fn c10_indexed_map_removals_keep_bijection() {
+    let (_, _, _, removed_by_value, pairs, n) = c10_indexed_history::<3>([0, 0, 1]);
+    kani::cover!(removed_by_value, "remove_value removed a pair");
+    kani::cover!(pairs == 1 && n == 3, "one of two pairs removed");
+    kani::cover!(pairs == 2 && n == 3, "removal of an absent alias / id leaves both pairs");
+    kani::cover!(true, "end of harness reachable");
+}
+
+//@ id=C10 tier=thorough timeout=3600 bounds="empty indexed map (both tables capacity 0 -> 64); insert, remove_key/remove_value (symbolic), insert; history length symbolic 1..=3; k, v from {0,64,1,65,128}; symbolic query key and value on the final state of every prefix" desc="IndexedMapImpl keeps a one-to-one mapping when a pair is inserted after a removal (tombstones on the probe paths of both tables, re-use of a removed alias or id)" kernel="IndexedMapImpl::insert,IndexedMapImpl::remove_key,IndexedMapImpl::remove_value,IndexedMapImpl::key,IndexedMapImpl::value,MapImpl::insert,MapImpl::remove,MapImpl::value" args="--no-assertion-reach-checks"
+#[kani::proof]
+#[kani::stub(std::fmt::format, crate::verif_support::fmt_stub)]
+#[kani::stub(crate::DbError::new, crate::verif_support::dberror_new_stub)]
+#[kani::unwind(6)]
+fn c10_indexed_map_reinsert_after_removal() {
+    let (_, _, _, removed_by_value, pairs, n) = c10_indexed_history::<3>([0, 1, 0]);
+    kani::cover!(removed_by_value && pairs == 1 && n == 3, "pair removed by id, then a pair inserted");
+    kani::cover!(pairs == 2, "removal missed, two pairs");
+    kani::cover!(true, "end of harness reachable");
+}
